@@ -276,6 +276,46 @@ pub fn run(run: &mut Run) {
         }
         let _ = n_ins;
     }
+    // how a variable is defined, assigned and read: initialiser kind x number of plain assignments x compound
+    // assignment x number of reads, for a local and for a global (variables nobody reads must still give loadable Lua)
+    {
+        for global in [false, true] {
+            for (iname, init) in [("literal", "0"), ("literal-string", "\"s\""), ("call", "idf(0)"), ("operator", "k + 1"), ("tuple", "(1, 2)"), ("if-value", "(if k > 0 do 1 else 2 end)")] {
+                for assigns in 0..3usize {
+                    for compound in [false, true] {
+                        for reads in 0..3usize {
+                            let is_num = !matches!(iname, "literal-string" | "tuple");
+                            if compound && !is_num {
+                                continue;
+                            }
+                            let mut body = String::new();
+                            let decl = format!("v := {}\n", init);
+                            if !global {
+                                body.push_str(&format!("    {}", decl));
+                            }
+                            let other = match iname {
+                                "literal-string" => "\"t\"",
+                                "tuple" => "(3, 4)",
+                                _ => "5",
+                            };
+                            for a in 0..assigns {
+                                body.push_str(&format!("    v = {}\n", if a == 0 { other.to_string() } else { init.to_string() }));
+                            }
+                            if compound {
+                                body.push_str("    v += 1\n");
+                            }
+                            for _ in 0..reads {
+                                body.push_str("    print(v)\n");
+                            }
+                            body.push_str("    print(k)\n");
+                            let text = format!("print: fn *X -> void : external\nk :: 3\nidf :: fn q: int -> int\n    q\nend\n{}start :: fn do\n{}end\n", if global { decl.clone() } else { String::new() }, body);
+                            cases.push(("variable-usage".into(), text, true, None, vec![format!("variable-usage:{}", iname)]));
+                        }
+                    }
+                }
+            }
+        }
+    }
     // the location of the source is not part of the program: whatever characters the path of the main file contains,
     // a program that compiles must still yield loadable Lua (run-time messages may quote the location)
     {
@@ -313,6 +353,59 @@ pub fn run(run: &mut Run) {
         }
         st.merge(acc);
     }
+    // the emitted text as the command-line driver leaves it on disk: every ordered pair of programs of different
+    // size compiled to one output path, a fresh path and a path holding unrelated text - the file must load
+    {
+        let bin = crate::engines::c16::sylt_bin();
+        if !bin.exists() {
+            eprintln!("MACHINERY: {} not built", bin.display());
+            std::process::exit(2);
+        }
+        let root = crate::report::verif_root().join("scratch").join(format!("c06-{}", std::process::id()));
+        let _ = std::fs::remove_dir_all(&root);
+        std::fs::create_dir_all(&root).unwrap();
+        let progs: Vec<(&str, String)> = vec![
+            ("tiny", "start :: fn do\nend\n".to_string()),
+            ("small", "print: fn *X -> void : external\nstart :: fn do\n    print(1)\nend\n".to_string()),
+            ("large", format!("print: fn *X -> void : external\nstart :: fn do\n{}end\n", "    print(\"a rather long line of output text\")\n".repeat(60))),
+        ];
+        for (n, t) in &progs {
+            std::fs::write(root.join(format!("{}.sy", n)), t).unwrap();
+        }
+        let mut acc = Stats::new();
+        let mut seq = 0;
+        for (first, _) in progs.iter().map(|p| (Some(p.0), 0)).chain([(None, 0), (Some("garbage"), 0)]) {
+            for (second, _) in &progs {
+                seq += 1;
+                let out = root.join(format!("out{}.lua", seq));
+                match first {
+                    None => {}
+                    Some("garbage") => std::fs::write(&out, "this is not Lua at all {{{{ ]] \n".repeat(2000)).unwrap(),
+                    Some(f) => {
+                        let _ = std::process::Command::new(&bin).arg("--no-std").arg("-o").arg(&out).arg(root.join(format!("{}.sy", f))).output();
+                    }
+                }
+                let o = std::process::Command::new(&bin).arg("--no-std").arg("-o").arg(&out).arg(root.join(format!("{}.sy", second))).output().expect("run sylt");
+                acc.evaluations += 1;
+                if o.status.code() != Some(0) {
+                    acc.count("driver-reported-failure(C20)", 1);
+                    continue;
+                }
+                let bytes = std::fs::read(&out).unwrap_or_default();
+                acc.nontrivial(fnv(format!("{:?}>{}", first, second).as_bytes()));
+                match loads(&bytes) {
+                    Ok(_) => acc.outcome("loads"),
+                    Err(e) => {
+                        let sig = load_sig(&e);
+                        acc.outcome(&sig);
+                        acc.fail(Failure { sig, preds: vec!["output-file-written-by-the-driver".into()], detail: format!("{:?}\nsylt -o FILE {}.sy after FILE held {:?}: the file ({} bytes) does not load", e, second, first, bytes.len()), case: json!({"engine": "c06-driver", "first": first, "second": second}), size: 10 });
+                    }
+                }
+            }
+        }
+        let _ = std::fs::remove_dir_all(&root);
+        st.merge(acc);
+    }
     let stop = AtomicBool::new(false);
     let _ = &stop;
     let accs = crate::pool::par_items(&cases, 8, |_| Stats::new(), |acc, i, (fam, text, no_std, want, preds)| {
@@ -325,7 +418,7 @@ pub fn run(run: &mut Run) {
     st.merge(Stats::merge_all(accs));
     run.stats = st;
     run.bounds = json!({"families": bounds, "field_names": FIELD_NAMES, "string_alphabet": STR_ALPHABET, "max_string_len": maxlen, "numeric_literals": NUM_LITERALS, "unused_expressions": UNUSED_EXPRS.len(), "sizes": sizes});
-    run.rule = format!("the Lua loader on the output of every successful compile of (a) {} and (b) lexical families: blob field names (Lua keywords and library names), every string literal content up to the length bound over a 23-character alphabet (backslash, quote-like characters, brackets, tab, LF, CR, ESC, NUL, DEL, digits, non-ASCII), numeric literal forms, every expression kind as an unused statement at first/middle/last position, bodies and files of n statements for the listed n with and without std; every short family program with one exit statement (ret, ret 0, break, continue, <!>, do-blocks ending in ret) inserted at every position of every block; a two-file program with `<!>` and `<=>` compiled from 12 directories whose names contain quotes, backslashes, brackets, `%`, `--`, tabs and non-ASCII text; non-trivial = compiled; distinct by text", crate::engines::c01::FAMILY_RULE);
+    run.rule = format!("the Lua loader on the output of every successful compile of (a) {} and (b) lexical families: blob field names (Lua keywords and library names), every string literal content up to the length bound over a 23-character alphabet (backslash, quote-like characters, brackets, tab, LF, CR, ESC, NUL, DEL, digits, non-ASCII), numeric literal forms, every expression kind as an unused statement at first/middle/last position, bodies and files of n statements for the listed n with and without std; every short family program with one exit statement (ret, ret 0, break, continue, <!>, do-blocks ending in ret) inserted at every position of every block; the output file the sylt driver leaves behind when 3 programs of different size are compiled to one path in every order (also onto a fresh path and onto unrelated text); every pattern of defining, assigning (0-2 times), compound-assigning and reading (0-2 times) a local / global variable with 6 initialiser kinds; a two-file program with `<!>` and `<=>` compiled from 12 directories whose names contain quotes, backslashes, brackets, `%`, `--`, tabs and non-ASCII text; non-trivial = compiled; distinct by text", crate::engines::c01::FAMILY_RULE);
     run.assumptions = vec![
         "the loader is MiniLua's (full Lua 5.3 grammar, goto/label rules, 200 active locals, 255 upvalues, 200 nesting levels); register allocation limits are not modelled".into(),
         "programs the compiler rejects are not in the domain of the property and are only counted".into(),
@@ -333,6 +426,10 @@ pub fn run(run: &mut Run) {
 }
 
 pub fn replay(case: &serde_json::Value) -> Option<(String, String)> {
+    if case["engine"] == "c06-driver" {
+        println!("driver cases are re-run by ./check C06 (they need the built sylt binary and a scratch directory)");
+        return Some(("load-error".into(), format!("sylt -o FILE {}.sy after {}", case["second"], case["first"])));
+    }
     if let Some(main) = case["main"].as_str() {
         let mut files = Files::new();
         for (k, v) in case["files"].as_object()? {
